@@ -97,7 +97,7 @@ var c13Leaves = []syncLeaf{
 	{"/sys/dns", "llkeys", false, []string{"LL:d1,d2", "LL:d3"}},
 }
 
-var c13DeleteTargets = []string{"/if[name=e1]", "/if[name=e10]", "/if[name=e1]/unit[id=1]", "/sys/log", "/sys/mtu", "/if[name=e1]/mtu", "/duo[k1=a][k2=a]", "/ifx", "/if-x[name=e1]", "/sys/descr", "/peer[name=n1][zone=z1]"}
+var c13DeleteTargets = []string{"/if[name=e1]/oper-state", "/stats/rx", "/if[name=e10]/oper-state", "/if[name=e1]", "/if[name=e10]", "/if[name=e1]/unit[id=1]", "/sys/log", "/sys/mtu", "/if[name=e1]/mtu", "/duo[k1=a][k2=a]", "/ifx", "/if-x[name=e1]", "/sys/descr", "/peer[name=n1][zone=z1]"}
 
 // keyKinds: value kind of key leaves
 func c13KeyKind(p string) string {
@@ -261,6 +261,16 @@ func (m *mirror) apply(it syncItem) {
 			if dp.Covers(model.Parse(p)) {
 				delete(m.config, p)
 				delete(m.cfgCycle, p)
+			}
+		}
+		// with sync validation a delete goes to the store its schema node belongs to: a state leaf leaves the state store,
+		// a config subtree the config store (state leaves below it are reported deleted one by one by a device)
+		if m.validate && (c13State[leafSchemaPath(d)] || strings.HasPrefix(d, "/stats/")) {
+			for p := range m.state {
+				if dp.Covers(model.Parse(p)) {
+					delete(m.state, p)
+					delete(m.stCycle, p)
+				}
 			}
 		}
 	}
